@@ -134,8 +134,7 @@ def export(eng, spec, outdir):
     top = eng.call(f, [spec, iomodel.HPath(outdir).joinpath("config"), iomodel.HPath(outdir).joinpath("data"), "FitConfig"], {})
     if not isinstance(top, iomodel.Blob):
         raise Unsupported("writexml did not return the serialised Combination element")
-    eng.fs.files[f"{outdir}/FitConfig.xml"] = top
-    eng.fs.writes.append(f"{outdir}/FitConfig.xml")
+    eng.fs.write(f"{outdir}/FitConfig.xml", top)
     return top
 
 
@@ -258,8 +257,12 @@ def compare(T, eng, r, spec, got, sfx, meta):
 
 
 def _assume_domain(eng, sym, skel):
-    for c in sym.positivity():
-        eng.assume(c)
+    """exportable workspaces: a relative uncertainty can only be formed for a non-zero yield, a relative luminosity
+    uncertainty for a non-zero luminosity; nothing else is assumed about the numbers (any sign, any size)"""
+    for name, v in sym.leaves.items():
+        last = name.rsplit(".", 1)[-1]
+        if (last.startswith("n") and last[1:].isdigit()) or name.endswith("cfg.lumi.aux"):
+            eng.assume(v != 0)
 
 
 def run_roundtrip(T, name, skel):
@@ -279,11 +282,12 @@ def run_roundtrip(T, name, skel):
         spec, sym = build_workspace(skel)
         _assume_domain(eng, sym, skel)
         box["spec"] = spec
+        box["leaves"] = dict(sym.leaves)
         export(eng, spec, "/out")
         return parse(eng, "/out")
     results = eng.explore(thunk)
     T.absorb(eng, results)
-    meta = dict(skeleton=name)
+    meta = dict(skeleton=name, inputs=box.get("leaves", {}))
     for k, r in enumerate(results):
         sfx = f"{name},path{k}"
         if r.kind != "return":
@@ -297,7 +301,8 @@ def run_roundtrip(T, name, skel):
 
 def run_history(T, name, skel, mode):
     """mode 'same-dir': export A -> import -> export B (same structure, independent numbers) into the SAME directory -> import
-       must give B.  mode 'other-dir': export A to /d1 -> import -> export B to /d2 -> import /d2 gives B and import /d1 still gives A."""
+       must give B.  mode 'other-dir': export A to /d1 -> import -> export B to /d2 -> import /d2 gives B and import /d1 still gives A.
+       mode 'restore-older': as same-dir, then the files of the first export are restored with their old time stamps -> import gives A."""
     eng = T.engine(io_policy())
     eng.fs = iomodel.install(eng)
     T.under_contract(eng, f"{RX}::import_root_histogram")
@@ -312,17 +317,20 @@ def run_history(T, name, skel, mode):
         Bs, symB = build_workspace(skel, "B.")
         _assume_domain(eng, symA, skel)
         _assume_domain(eng, symB, skel)
-        box.update(A=A, B=Bs)
-        d2 = "/out" if mode == "same-dir" else "/other"
+        box.update(A=A, B=Bs, leaves={**symA.leaves, **symB.leaves})
+        d2 = "/other" if mode == "other-dir" else "/out"
         export(eng, A, "/out")
+        saved = eng.fs.backup()
         first = parse(eng, "/out")
         export(eng, Bs, d2)
         second = parse(eng, d2)
+        if mode == "restore-older":
+            eng.fs.restore(saved)          # the files of the first export are put back with their (older) time stamps
         third = parse(eng, "/out")
         return first, second, third
     results = eng.explore(thunk)
     T.absorb(eng, results)
-    meta = dict(skeleton=name, history=mode)
+    meta = dict(skeleton=name, history=mode, inputs=box.get("leaves", {}))
     for k, r in enumerate(results):
         sfx = f"{name},{mode},path{k}"
         if r.kind != "return":
@@ -375,24 +383,38 @@ def tasks(tier):
     out = [(f"roundtrip[{n}]", (lambda n, s: lambda T: run_roundtrip(T, n, s))(n, s)) for n, s in sk]
     hist = [SKELETONS[0], SKELETONS[2]] if tier == "quick" else sk[:4] + THOROUGH_EXTRA
     for n, s in hist:
-        for mode in ("same-dir", "other-dir"):
+        for mode in ("same-dir", "other-dir", "restore-older"):
             out.append((f"history[{n},{mode}]", (lambda n, s, mode: lambda T: run_history(T, n, s, mode))(n, s, mode)))
     out.append(("rootnames", t_rootnames))
     return out
 
 
 # ---------------------------------------------------------------- native replay (real uproot, real files)
-def concrete_workspace(skel, seed, lumi=None):
+def _num(v):
+    if isinstance(v, dict):
+        if "num" in v:
+            return v["num"] / v["den"]
+        return float(str(v.get("approx", "0")).rstrip("?"))
+    return v
+
+
+def concrete_workspace(skel, seed, lumi=None, overrides=None, prefix=""):
+    """a concrete instance of the skeleton; `overrides` (solver counter-model: leaf name -> value) take precedence"""
     import random
     rng = random.Random(seed)
-    spec, sym = build_workspace(skel)
+    spec, sym = build_workspace(skel, prefix)
+    overrides = overrides or {}
     is_int = bool(skel.get("int_yields"))
     vals = {}
 
     def val(v):
         if not is_z(v):
             return v
-        key = str(v)
+        full = str(v)
+        key = full[len(prefix):] if prefix and full.startswith(prefix) else full
+        if full in overrides and isinstance(_num(overrides[full]), (int, float)):
+            x = _num(overrides[full])
+            return int(x) if v.is_int() else float(x)
         if key not in vals:
             last = key.rsplit(".", 1)[-1]
             if key == "cfg.lumi.aux":
@@ -557,24 +579,31 @@ def replay(r):
     try:
         pyhf.readxml.clear_filecache()
         mode = meta.get("history")
+        model = r.get("model") or {}
         if mode is None:
-            for seed, lumi in ((1, 2.5), (2, 1.0)):
-                ws = concrete_workspace(skel, seed, lumi)
+            trials = [("counter-model", concrete_workspace(skel, 1, None, overrides=model))] if model else []
+            trials += [(f"seed{seed},lumi={lumi}", concrete_workspace(skel, seed, lumi)) for seed, lumi in ((1, 2.5), (2, 1.0))]
+            for k, (tag, ws) in enumerate(trials):
                 try:
-                    got = native_roundtrip(ws, f"{tmp}/s{seed}")
+                    got = native_roundtrip(ws, f"{tmp}/s{k}")
                 except Exception as e:
-                    bad[f"seed{seed}:raises"] = f"{type(e).__name__}: {e}"
+                    bad[f"{tag}:raises"] = f"{type(e).__name__}: {e}"
                     continue
                 d = native_diff(ws, got)
                 if not d:
                     d = native_logpdf_diff(ws, got)
-                for k, v in d.items():
-                    bad[f"seed{seed},lumi={lumi}:{k}"] = v
+                for kk, v in d.items():
+                    bad[f"{tag}:{kk}"] = v
         else:
-            A, Bw = concrete_workspace(skel, 1), concrete_workspace(skel, 2)
-            d2 = f"{tmp}/out" if mode == "same-dir" else f"{tmp}/other"
+            A = concrete_workspace(skel, 1, overrides=model, prefix="A.")
+            Bw = concrete_workspace(skel, 2, overrides=model, prefix="B.")
+            d2 = f"{tmp}/other" if mode == "other-dir" else f"{tmp}/out"
             first = native_roundtrip(A, f"{tmp}/out")
+            shutil.copytree(f"{tmp}/out", f"{tmp}/backup", copy_function=shutil.copy2)
             second = native_roundtrip(Bw, d2)
+            if mode == "restore-older":
+                shutil.rmtree(f"{tmp}/out")
+                shutil.copytree(f"{tmp}/backup", f"{tmp}/out", copy_function=shutil.copy2)
             third = pyhf.readxml.parse(f"{tmp}/out/FitConfig.xml", f"{tmp}/out")
             for tag, ws, got in (("first-import", A, first), ("import-after-second-export", Bw, second),
                                  ("reimport", Bw if mode == "same-dir" else A, third)):
